@@ -312,7 +312,8 @@ def _evaluate(pid, d, res, results, tier):
                 elif sig not in viol_sigs:
                     viol_sigs[sig] = (r, i, c, tr)
         gh = [(i, c) for i, c in r["guards"] if c in GUARD_OWNERS.get(pid, ())]
-        if gh and applicable:
+        # the local rules hold in every environment (lib/allguards.py validates them on all families): not gated
+        if gh:
             key = gh[0][1]
             if key not in guard_fail:
                 guard_fail[key] = (r, gh[0][0], simlib.trace_of(r))
@@ -356,6 +357,7 @@ def _evaluate(pid, d, res, results, tier):
 ALL_STORE_RULES = {2000, 2001, 2002, 2004, 2005, 2006, 2007, 2008, 2009, 2010, 2011, 2012, 2013, 2014, 2020, 2021, 2022, 2023, 2050, 2052, 2060, 2061}
 GUARD_OWNERS = {
     "C01": ALL_STORE_RULES, "C05": {2002, 2003, 2004}, "C10": {2005}, "C13": {2032, 2006, 2005}, "C09": {2030, 2040, 2041},
+    "C03": {2070, 2073, 2080}, "C04": {2081}, "C12": {2080, 2081},
     "C08": {2043, 2044, 2045, 2047, 2048}, "C07": {2031, 2070, 2073, 2074, 2075, 2080, 2081}, "C02": {2000, 2012, 2014, 2023, 2032, 2031, 2033, 2034, 2070, 2072, 2073, 2074, 2075, 2076},
 }
 RULE_TEXT = {
